@@ -29,7 +29,7 @@ def main():
         except subprocess.TimeoutExpired:
             out, rc = 'TIMEOUT', -1
         finally:
-            sh('git -C /repo checkout -- .')
+            sh('git -C /repo checkout -- . && git -C /repo clean -fdq lazy_dataset')
         lines = [l for l in out.splitlines() if l.startswith(('VIOLATION', 'UNDECIDED', 'CHECKER-FAULT'))]
         meta['detection'] = {'check': './check %s --tier quick' % prop, 'exit': rc, 'seconds': round(time.time() - t0, 1),
                              'lines': lines[:6], 'detected': rc == 1}
